@@ -658,6 +658,11 @@ func workload(cx *lib.Ctx) {
 	if cx.Replay != "" {
 		var in roundInput
 		raw := lib.ReplayInput(cx.Replay)
+		if strings.HasPrefix(raw, "FIRSTUSE ") {
+			// a failure of the first-use stream: the stream is a function of the seed; run it again
+			firstUse(cx)
+			return
+		}
 		if err := json.Unmarshal([]byte(raw), &in); err != nil {
 			res.Fail(lib.Failure{Kind: "oracle", Key: "replay-input", Desc: "cannot read the replay input: " + err.Error(), Input: raw})
 			return
@@ -718,6 +723,7 @@ func workload(cx *lib.Ctx) {
 	for k, v := range stats {
 		res.Distribution[k] = v
 	}
+	firstUse(cx)
 }
 
 // runChild executes bin with the same arguments and takes over its result.
